@@ -185,9 +185,9 @@ inline void erase_at(T *first, SizeType count) {
 /// Requirements: n < count
 template <class T, class SizeType, typename std::enable_if<!std::is_trivially_copyable<T>::value, bool>::type = true>
 inline void fill(T *first, SizeType n, SizeType count, const T &v) {
-  // uninitialized fill first for slightly better exception safety
-  std::uninitialized_fill_n(first + n, count - n, v);
+  // assign first: if an assignment throws, no object has been created yet beyond the initialized elements
   std::fill_n(first, n, v);
+  std::uninitialized_fill_n(first + n, count - n, v);
 }
 
 template <class T, class SizeType, typename std::enable_if<std::is_trivially_copyable<T>::value, bool>::type = true>
